@@ -1,8 +1,10 @@
 // c02probe -- factory sweep for C02 (read-back of operands) and C09 (prescribed types, typed sequences).
 //
-//   c02probe <seed> <rounds>        reads op lines from stdin:
-//     all                 call every factory entry below
-//     call <key>          call one entry (all its instances)
+//   c02probe <seed> <rounds> [<reserved words: hex,hex,...>]        reads op lines from stdin:
+//     all                 call every factory entry below, each followed by its operand forms (see `Mode`)
+//     call <key>          call one entry (all its instances and operand forms; the key of a form names its entry), after the entries of
+//                         the same function registered before it
+//     recheck             the pool containers gain a member, then every node returned so far is read again (`L` lines)
 //     grow <kind> <n> [salt]   C09 growth history: kind = scope|plist|xlist|enum|bases ; add n members, observe after each
 //     list                print the keys of all entries (one `E <key>` line each)
 //
@@ -16,6 +18,7 @@
 //     O <name> <Kind> field=value ...        observations (universal observer, observe.hxx) of the result, of the objects
 //                                            created with it (to depth 2) and of operands created for this call
 //     U <key> <inst> same|fresh              the same call repeated: same node (unified) or a new one (generative)
+//     M / N <key> <inst> <step> ...          client actions on the node of the repeated call, its type and its observation after each (mutate_pass)
 //     G ...                                  growth-history lines (see grow())
 #include <algorithm>
 #include <cstdio>
@@ -162,6 +165,23 @@ namespace {
       std::vector<const ipr::Enumerator*> enumerators;
       std::vector<const ipr::Base_type*> bases;
 
+      // ---- operand FORMS (see `Mode` below): how an operand was built must not matter to the node that is given it
+      // every node a factory function (by name, whatever the overload / documented form) has returned so far: operands for `#nested`
+      struct Made_by { std::string origin; const ipr::Expr* expr; const ipr::Type* type; };
+      std::map<std::string, std::vector<Made_by>> made_by;
+      std::vector<const ipr::Decl*> resolvable;      // declarations an id-expression can be resolved to (every form of declaration)
+      std::vector<const ipr::Type*> id_types;        // types of id-expressions made for one call (distinct from every other pool type)
+      std::vector<std::u8string> reserved_words;     // every reserved spelling (process-wide constants of the string pool)
+      const ipr::String& reserved_string(std::size_t k) { return lex.get_string(reserved_words[k]); }
+      const ipr::Identifier& reserved_ident(std::size_t k) { return lex.get_identifier(reserved_words[k]); }
+      std::vector<const ipr::Type*> odd_types;       // types that are not the "natural" one of any reserved spelling
+      std::vector<impl::Expr_list*> pool_lists;      // the pool containers as the client holds them: they GROW before the late re-read
+      std::vector<impl::Region*> pool_regions;
+      std::vector<impl::Block*> pool_blocks;
+      std::size_t next_id_type = 0;
+      std::set<const void*> nested_before;           // nodes already handed to their own factory function as an operand
+      void grow_pools();
+
       util::word_view word(std::mt19937_64& g)
       {
          std::u8string w;
@@ -219,11 +239,64 @@ namespace {
    // C09: "mutate, then re-read the type" -- defined after Run
    template<class X> void mutate_pass(Run&, X&);
 
+   // ---------------------------------------------------------------------------------------------- operand forms
+   // What a node reports about an operand does not depend on HOW that operand was built, on the state it is in, or on when the client
+   // fills it.  After the base row of an entry (operands from the pools) the same entry body is run again under each form that applies
+   // to its operand sorts; only the pick functions behave differently, the documented row is the base row under another key:
+   //   #nested             an Expr slot (result an expression) / a Type slot (result a type) receives a node that an EARLIER call of the
+   //                       same factory function (any overload / form) returned: one slot at a time, then all of them
+   //   #resolved-operand   an Expr slot receives an id-expression that has a resolution: made by make_id_expr(Decl) (any declaration
+   //                       form), or made from a name and resolved by the client BEFORE the call, or AFTER the call (before it is read)
+   //   #reserved-spelling  String / word / Name / Identifier slots spell a reserved word (every one of them for String and word slots),
+   //                       Type slots next to them receive types that are not the natural type of any such word
+   //   #list-filled-later  an Expr_list (Block) slot receives a fresh container that is EMPTY at the call: it stays empty until after the
+   //                       first read, or is filled right after the call, or was filled before and grows after the first read
+   enum Mode { BASE = 0, NESTED, RESOLVED, RESERVED, FILLED };
+   const char* const mode_suffix[] = { "", "#nested", "#resolved-operand", "#reserved-spelling", "#list-filled-later" };
+
+   struct Form_info {                                // what the base run of an entry told about it
+      bool known = false;
+      std::vector<std::string> sorts;
+      bool is_expr = false, is_type = false, is_qualified = false, is_expr_list = false;
+      bool has(const char* s) const { return std::find(sorts.begin(), sorts.end(), s) != sorts.end(); }
+   };
+
+   struct Form {
+      Mode mode = BASE;
+      std::vector<int> slots;                        // operand positions that the form overrides
+      int nvar = 1;                                  // one slot at a time (+ all of them when there are several)
+      int nstates = 1;                               // origins of a nested operand / states of a resolved one / fill orders / words
+      bool every_word = false;
+      std::vector<std::string> origins;              // #nested: the entries of this function that have answered so far
+      mutable std::deque<Ctx::Made_by> candidates;   // ... and what they answered so far (this form's own answers join them: deeper nesting)
+   };
+
+   bool form_applies(Mode m, const Form_info& i)
+   {
+      switch (m) {
+      case NESTED: return not i.is_qualified and ((i.is_expr and i.has("Expr")) or (i.is_type and i.has("Type")));
+      case RESOLVED: return i.has("Expr");
+      case RESERVED: return i.has("Type") and (i.has("String") or i.has("word_view") or i.has("Name") or i.has("Identifier"));
+      case FILLED: return i.has("Expr_list") and not i.is_expr_list;
+      default: return false;
+      }
+   }
+
    struct Run {
       Ctx& c;
       const std::string& key;
       int inst;
       bool repeat;
+      const Form* form = nullptr;
+      std::string fname;
+      Form_info* info = nullptr;                     // filled by the first call of the base row
+      std::vector<const void*> created;              // operands made for this call (forms): the repeated call is given the same ones
+      const std::vector<const void*>* reuse = nullptr;
+      std::size_t reused = 0;
+      std::vector<std::function<void()>> after_call;  // client actions between the factory call and the first read
+      std::vector<std::function<void()>> after_read;  // ... and after the first read (seen by the late re-read)
+      std::vector<std::pair<std::string, std::string>> tail;   // operands recorded after the positional ones (value, sort)
+      std::set<const void*> used;
       int attempt = 0;                               // operand choice retried when a unified result existed before the call
       std::string first_result;
       std::size_t watermark;
@@ -251,7 +324,43 @@ namespace {
       {
          for (auto& f : scrubs) f();
          scrubs.clear();
+         for (auto& f : after_call) f();                // what the client does to the operands between the call and the first read
+         after_call.clear();
+         for (auto& t : tail) { args.push_back(t.first); sorts.push_back(t.second); }
+         tail.clear();
       }
+      // what the call told about the entry (for the operand forms), and its result as a future `#nested` operand
+      template<class X>
+      void note(const X& x)
+      {
+         if (repeat) return;
+         const ipr::Expr* e = nullptr;
+         const ipr::Type* t = nullptr;
+         bool q = false, xl = false;
+         if constexpr (std::is_polymorphic_v<X>) {
+            e = dynamic_cast<const ipr::Expr*>(&x);
+            t = dynamic_cast<const ipr::Type*>(&x);
+            q = dynamic_cast<const ipr::Qualified*>(&x) != nullptr;
+            xl = dynamic_cast<const ipr::Expr_list*>(&x) != nullptr;
+         }
+         if (info != nullptr and not info->known) {
+            info->known = true;
+            info->sorts = sorts;
+            info->is_expr = e != nullptr; info->is_type = t != nullptr; info->is_qualified = q; info->is_expr_list = xl;
+         }
+         if (e == nullptr or ephemeral) return;
+         if (form != nullptr and form->mode == NESTED) {
+            // also when the answer existed before (a unified factory asked for a nesting the pools already contain): the next
+            // attempt nests one level deeper
+            bool known = false;
+            for (auto& m : form->candidates) if (m.expr == e) known = true;
+            if (not known) form->candidates.push_back({origin, e, t});
+         }
+         auto& v = c.made_by[fname];
+         for (auto& m : v) if (m.expr == e) return;
+         v.push_back({origin, e, t});
+      }
+      std::string origin;                              // the entry (base key) this run belongs to
 
       Run(Ctx& cc, const std::string& k, int i, bool rep, std::string first = {})
          : c{cc}, key{k}, inst{i}, repeat{rep}, first_result{std::move(first)}, watermark{cc.ob.count()} { }
@@ -275,11 +384,141 @@ namespace {
       std::string show(const ipr::Transfer& x) { return c.ob.show(x); }
       std::string show(const impl::Warehouse<ipr::Type>& w) { return c.ob.show(static_cast<const ipr::Sequence<ipr::Type>&>(w.rep())); }
 
-      const ipr::Type& T() { return pick(1, "Type", c.types); }
-      const ipr::Expr& E() { return pick(2, "Expr", c.exprs); }
-      const ipr::Name& N() { return pick(3, "Name", c.names); }
-      const ipr::Identifier& I() { return pick(4, "Identifier", c.idents); }
-      const ipr::String& S() { return pick(5, "String", c.strings); }
+      // ---- operand forms: which slots of this instance are overridden, and how
+      int pos() const { return static_cast<int>(args.size()); }
+      int variant() const { return form != nullptr ? inst % form->nvar : 0; }
+      int state() const { return form != nullptr ? (inst / form->nvar) % form->nstates : 0; }
+      bool selected(int p) const
+      {
+         if (form == nullptr) return false;
+         auto it = std::find(form->slots.begin(), form->slots.end(), p);
+         if (it == form->slots.end()) return false;
+         return variant() >= static_cast<int>(form->slots.size()) or static_cast<int>(it - form->slots.begin()) == variant();
+      }
+      template<class X>
+      const X& operand(const X& x, const char* sort, bool observe_with_the_call)
+      {
+         args.push_back(show(x));
+         if (observe_with_the_call) fresh_args.push_back(args.back());
+         sorts.push_back(sort);
+         return x;
+      }
+      // an operand made for this call; the repeated call is given the very same one
+      template<class X, class F>
+      X* make_once(F&& make)
+      {
+         if (reuse != nullptr and reused < reuse->size()) return static_cast<X*>(const_cast<void*>((*reuse)[reused++]));
+         X* x = make();
+         created.push_back(static_cast<const void*>(x));
+         return x;
+      }
+      // #nested: a node that an earlier call of the same factory function returned (first choice: the entry whose turn it is)
+      const Ctx::Made_by* nested(bool want_type)
+      {
+         const auto& cs = form->candidates;
+         if (cs.empty()) return nullptr;
+         if (reuse != nullptr and reused < reuse->size()) return static_cast<const Ctx::Made_by*>((*reuse)[reused++]);
+         const std::string& wanted = form->origins[(static_cast<std::size_t>(state()) + c.seed) % form->origins.size()];
+         auto g = gen(7000 + 16 * inst + pos());
+         const std::size_t start = g() % cs.size();
+         // first choice: a node of the entry whose turn it is that no call has been given as a nested operand yet; then such a node of
+         // any entry; then any node of that entry; then any
+         for (int pass = 0; pass < 4; ++pass)
+            for (std::size_t k = 0; k < cs.size(); ++k) {
+               const auto& m = cs[(start + k) % cs.size()];
+               if (pass % 2 == 0 and m.origin != wanted) continue;
+               if (pass < 2 and c.nested_before.count(m.expr) != 0) continue;
+               if (want_type ? m.type == nullptr : m.expr == nullptr) continue;
+               if (used.count(m.expr) != 0) continue;
+               used.insert(m.expr);
+               c.nested_before.insert(m.expr);
+               created.push_back(static_cast<const void*>(&m));
+               ++c.stats[std::string("forms: operands that an earlier call of the same function returned") + (m.origin == this->origin ? "" : " (another overload / form)")];
+               return &m;
+            }
+         return nullptr;
+      }
+      // #resolved-operand: an id-expression with a resolution -- made from the declaration, or from a name and resolved by the
+      // client before the call, or after the call (before anything is read)
+      const ipr::Expr& resolved_id()
+      {
+         auto g = gen(7100 + 16 * inst + pos());
+         const ipr::Decl& d = *c.resolvable[g() % c.resolvable.size()];
+         const int st = state();
+         Ctx* ctx = &c;
+         impl::Id_expr* x = make_once<impl::Id_expr>([&]() -> impl::Id_expr* {
+            if (st == 0) return ctx->lex.make_id_expr(d);
+            auto* y = ctx->lex.make_id_expr(d.name(), *ctx->id_types[ctx->next_id_type++ % ctx->id_types.size()]);
+            if (st == 1) y->decls = &d;
+            return y; });
+         if (st == 2 and not repeat) after_call.push_back([x, &d] { x->decls = &d; });
+         ++c.stats[st == 0 ? "forms: id-expressions of a declaration as operands" : st == 1 ? "forms: id-expressions resolved by the client before the call"
+                   : "forms: id-expressions resolved by the client after the call"];
+         return operand(static_cast<const ipr::Expr&>(*x), "Expr", true);
+      }
+      // #reserved-spelling: the word of this instance (instances 2w and 2w+1 spell the same word next to two different types)
+      int nwordslots = 0;
+      std::size_t word_index()
+      {
+         const std::size_t n = c.reserved_words.size();
+         std::vector<std::size_t> perm(n);
+         for (std::size_t i = 0; i < n; ++i) perm[i] = i;
+         std::mt19937_64 g{mix(mix(c.seed, hash_str(key)), 7200)};
+         std::shuffle(perm.begin(), perm.end(), g);
+         return perm[(static_cast<std::size_t>(inst / 2) + nwordslots++) % n];
+      }
+      const ipr::Type& odd_type()
+      {
+         auto g = gen(7250 + 16 * inst + pos());
+         for (;;) {
+            const ipr::Type* t = c.odd_types[g() % c.odd_types.size()];
+            if (not used.insert(t).second) continue;
+            ++c.stats["forms: reserved spellings next to a type that is not their natural one"];
+            return operand(*t, "Type", false);
+         }
+      }
+      // #list-filled-later: a container that is empty when the node is made
+      template<class X, class Make, class Grow>
+      X* later_filled(Make make, Grow grow)
+      {
+         const int st = state();             // 0: empty until after the first read; 1: filled right after the call; 2: filled before, grows after the first read
+         X* x = make_once<X>([&] { X* y = make(); if (st == 2) grow(y); return y; });
+         if (not repeat) {
+            if (st == 1) after_call.push_back([x, grow]() mutable { grow(x); grow(x); });
+            else after_read.push_back([x, grow]() mutable { grow(x); grow(x); });
+         }
+         ++c.stats[st == 0 ? "forms: containers empty at the call and at the first read, filled afterwards" : st == 1 ? "forms: containers empty at the call, filled before the first read"
+                   : "forms: containers filled before the call, grown after the first read"];
+         return x;
+      }
+
+      const ipr::Type& T()
+      {
+         if (form != nullptr and form->mode == NESTED and selected(pos())) if (auto* m = nested(true)) return operand(*m->type, "Type", true);
+         if (form != nullptr and form->mode == RESERVED) return odd_type();
+         return pick(1, "Type", c.types);
+      }
+      const ipr::Expr& E()
+      {
+         if (form != nullptr and form->mode == NESTED and selected(pos())) if (auto* m = nested(false)) return operand(*m->expr, "Expr", true);
+         if (form != nullptr and form->mode == RESOLVED and selected(pos())) return resolved_id();
+         return pick(2, "Expr", c.exprs);
+      }
+      const ipr::Name& N()
+      {
+         if (form != nullptr and form->mode == RESERVED) return operand(static_cast<const ipr::Name&>(c.reserved_ident(word_index())), "Name", true);
+         return pick(3, "Name", c.names);
+      }
+      const ipr::Identifier& I()
+      {
+         if (form != nullptr and form->mode == RESERVED) return operand(c.reserved_ident(word_index()), "Identifier", true);
+         return pick(4, "Identifier", c.idents);
+      }
+      const ipr::String& S()
+      {
+         if (form != nullptr and form->mode == RESERVED) return operand(c.reserved_string(word_index()), "String", true);
+         return pick(5, "String", c.strings);
+      }
       const ipr::Product& P() { return pick(6, "Product", c.products); }
       const ipr::Sum& SUM() { return pick(7, "Sum", c.sums); }
       const ipr::Function& FN() { return pick(8, "Function", c.functions); }
@@ -290,10 +529,31 @@ namespace {
       const ipr::Region& R() { return pick(13, "Region", c.regions); }
       const ipr::Scope& SC() { return pick(14, "Scope", c.scopes); }
       const ipr::Scope_ref& SR() { return pick(15, "Scope_ref", c.scope_refs); }
-      const ipr::Expr_list& XL() { return pick(16, "Expr_list", c.expr_lists); }
+      const ipr::Expr_list& XL()
+      {
+         if (form != nullptr and form->mode == FILLED) {
+            auto g = gen(7300 + 16 * inst + pos());
+            Ctx* ctx = &c;
+            auto* xl = later_filled<impl::Expr_list>([ctx] { return ctx->lex.make_expr_list(); },
+                                                    [ctx, g](impl::Expr_list* l) mutable { l->push_back(ctx->exprs[g() % ctx->exprs.size()]); });
+            return operand(static_cast<const ipr::Expr_list&>(*xl), "Expr_list", true);
+         }
+         return pick(16, "Expr_list", c.expr_lists);
+      }
       const ipr::Enclosure& ENC() { return pick(17, "Enclosure", c.enclosures); }
       const ipr::Construction& CONS() { return pick(18, "Construction", c.constructions); }
-      const ipr::Block& BLK() { return pick(19, "Block", c.blocks); }
+      const ipr::Block& BLK()
+      {
+         if (form != nullptr and form->mode == FILLED) {
+            auto g = gen(7350 + 16 * inst + pos());
+            Ctx* ctx = &c;
+            const ipr::Region* reg = c.regions[g() % c.regions.size()];
+            auto* b = later_filled<impl::Block>([ctx, reg] { return ctx->lex.make_block(*reg); },
+                                                [ctx, g](impl::Block* l) mutable { l->add_stmt(*ctx->exprs[g() % ctx->exprs.size()]); });
+            return operand(static_cast<const ipr::Block&>(*b), "Block", true);
+         }
+         return pick(19, "Block", c.blocks);
+      }
       const ipr::Token& TOK() { return pick(20, "Token", c.toks); }
       const ipr::Attribute& ATT() { return pick(21, "Attribute", c.attributes); }
       const ipr::Sequence<ipr::Attribute>& ATTS() { return pick(22, "Sequence<Attribute>", c.attribute_seqs); }
@@ -339,14 +599,26 @@ namespace {
          static char8_t buffers[8][32];
          static int next = 0;
          char8_t* b = buffers[next++ % 8];
-         const std::size_t n = 1 + static_cast<std::size_t>(g() % 12);
+         // (at least six arbitrary bytes: a word that an earlier call happened to intern would make its String an old node, not one
+         //  created with the result -- with one or two bytes that happened at about one seed in thirty)
+         std::size_t n = 6 + static_cast<std::size_t>(g() % 7);
          for (std::size_t i = 0; i < 32; ++i) b[i] = static_cast<char8_t>(0xa5 + i);     // neighbours: the view is not NUL-terminated
          for (std::size_t i = 0; i < n; ++i) b[8 + i] = static_cast<char8_t>(g() & 0xff);
+         const ipr::String* reserved = nullptr;
+         if (form != nullptr and form->mode == RESERVED) {
+            // a reserved spelling: its String is a process-wide constant that exists before the call -- recorded as a further operand
+            const std::size_t k = word_index();
+            const std::u8string& rw = c.reserved_words[k];
+            n = std::min<std::size_t>(rw.size(), 24);
+            for (std::size_t i = 0; i < n; ++i) b[8 + i] = rw[i];
+            reserved = &c.reserved_string(k);
+         }
          util::word_view w{b + 8, n};
          scrubs.push_back([b] { for (std::size_t i = 0; i < 32; ++i) b[i] = static_cast<char8_t>(b[i] * 7 + 0x3b); });
          ++c.stats["by-value operands passed from re-used storage"];
          args.push_back(c.ob.show(w));
          sorts.push_back("word_view");
+         if (reserved != nullptr) { tail.emplace_back(c.ob.show(*reserved), "String"); fresh_args.push_back(tail.back().first); }
          return w;
       }
 
@@ -461,11 +733,12 @@ namespace {
       {
          scrub();
          result = c.ob.show(x);
+         note(x);
          if (repeat) {
             std::cout << "U " << key << ' ' << inst << ' ' << (result == first_result ? "same" : "fresh") << '\n';
             // the node made by the REPEATED call (a fresh one: nothing else ever reads it) receives every client action its
             // implementation class allows, one at a time, and reports its type after each
-            if (result != first_result) mutate_pass(*this, const_cast<X&>(x));
+            if (result != first_result and (form == nullptr or inst < 2)) mutate_pass(*this, const_cast<X&>(x));
             return;
          }
          std::cout << "C " << key << ' ' << inst << " sorts=" << joinc(sorts) << " args=" << join(args) << " => " << result
@@ -475,123 +748,150 @@ namespace {
          print_closure(c, result, watermark, 2, seen);
          std::set<std::string> none;
          for (auto& a : fresh_args) if (a != result) print_closure(c, a, watermark, 0, none);
+         for (auto& f : after_read) f();                 // the client goes on filling its containers: seen by the late re-read
+         after_read.clear();
       }
    };
 
-   // ---------------------------------------------------------------------------------------------- mutate, then re-read the type
+   // ---------------------------------------------------------------------------------------------- mutate, then re-read
    // C09: a node whose type is fixed by its kind, or was given to the factory, reports THAT type for the rest of its life -- whatever
-   // the client does afterwards to the other client-settable parts of the node.  `mutate_pass` is applied to the result of every
-   // factory entry (the one made by the repeated call).  It discovers, from the result's implementation class alone (requires-
-   // expressions over the names of the public data members and mutators of include/ipr/impl), what a client can do to such a node:
-   // assign each optional link (`init`, `op_impl`, `underlying`, `id`, `lexreg`, `stmt`, ...), the master declaration data, the
-   // specifiers, locations, annotations and attributes, and grow each container (`add_stmt`, `new_handler`, `add_member`, `param`,
-   // `declare_*`, `push_back`, ...).  The actions are applied one at a time in a seeded order and after each one the type is read:
-   //     M <key> <inst> <step> <action> type=<t> want=<w>
+   // the client does afterwards to the other client-settable parts of the node.  C02: a part supplied through the node's builder
+   // interface after creation reads as the value it was given LAST -- every setter is called twice, with different values.
+   // `mutate_pass` is applied to the result of every factory entry (the one made by the repeated call).  It discovers, from the
+   // result's implementation class alone (requires-expressions over the names of the public data members and mutators of
+   // include/ipr/impl), what a client can do to such a node: assign each optional link (`init`, `op_impl`, `underlying`, `id`,
+   // `lexreg`, `stmt`, `decls`, `owned_by`, ...), the master declaration data, the specifiers, locations, annotations and attributes,
+   // and grow each container (`add_stmt`, `new_handler`, `add_member`, `param`, `declare_*`, `push_back`, ...).  The actions are applied
+   // one at a time in a seeded order and after each one the type and then the whole node are read:
+   //     M <key> <inst> <step> <action> type=<t> want=<w> val=<v>
+   //     N <key> <inst> <step> <observation of the node>
    // `want` is the type before the action (keep); after `typing = T` (the type is GIVEN now) it is T; after an action on the very
    // sub-node a borrowed type is taken from (`stmt`, `result`) it is `<old>|<type of the new sub-node>` -- one of the two, which
-   // one is the business of the `#linked` rows of the wiring table.
-   struct Mut { std::string name; std::function<void()> act; std::function<std::string()> want; };   // want empty: keep
+   // one is the business of the `#linked` rows of the wiring table.  `val` is the value a setter assigned (`-` for other actions).
+   struct Mut { std::string name; std::function<void()> act; std::function<std::string()> want; std::string val; };   // want empty: keep
+
+   // one setter called with two different values (in the seeded order of all actions, the second call not necessarily last)
+   void twice(std::vector<Mut>& ms, const std::string& name, std::function<void(int)> set, const std::string& v0, const std::string& v1,
+              std::function<std::string()> w0 = {}, std::function<std::string()> w1 = {})
+   {
+      ms.push_back({name, [set] { set(0); }, std::move(w0), v0});
+      ms.push_back({name + "#2", [set] { set(1); }, std::move(w1), v1});
+   }
 
    template<class X>
    void mutate_pass(Run& r, X& n)
    {
-      if constexpr (std::is_base_of_v<ipr::Expr, X> and not std::is_const_v<X>) {
+      if constexpr (std::is_base_of_v<ipr::Node, X> and not std::is_const_v<X>) {
          Ctx& c = r.c;
          auto& L = c.lex;
          auto g = r.gen(4242);
-         auto pick = [&g](auto& pool) -> auto& { return *pool[g() % pool.size()]; };
+         std::size_t turn = g() % 64;                               // values come from the pools in turn: no two setters get the same one
+         auto pick = [&turn](auto& pool) -> auto& { return *pool[turn++ % pool.size()]; };
          auto T = [&]() -> const ipr::Type& { return pick(c.types); };
          auto E = [&]() -> const ipr::Expr& { return pick(c.exprs); };
          auto N = [&]() -> const ipr::Name& { return pick(c.names); };
          auto typeof_ = [&c](const ipr::Expr& e) { return verif::guard([&] { return c.ob.show(e.type()); }); };
-         auto now = [&] { return typeof_(static_cast<const ipr::Expr&>(n)); };
+         auto now = [&]() -> std::string {
+            if constexpr (std::is_base_of_v<ipr::Expr, X>) return typeof_(static_cast<const ipr::Expr&>(n));
+            else return "-";
+         };
+         auto show = [&c](const auto& x) { return c.ob.show(x); };
          std::vector<Mut> ms;
-         // ---- optional links: the first sort of node the member accepts
-#define LINK(MEMBER, ...) \
-         if constexpr (requires { n.MEMBER = &E(); }) ms.push_back({#MEMBER "=Expr", [&] { n.MEMBER = &E(); }, __VA_ARGS__}); \
-         else if constexpr (requires { n.MEMBER = &pick(c.stmts); }) ms.push_back({#MEMBER "=Stmt", [&] { n.MEMBER = &pick(c.stmts); }, __VA_ARGS__}); \
-         else if constexpr (requires { n.MEMBER = &T(); }) ms.push_back({#MEMBER "=Type", [&] { n.MEMBER = &T(); }, __VA_ARGS__}); \
-         else if constexpr (requires { n.MEMBER = &pick(c.regions); }) ms.push_back({#MEMBER "=Region", [&] { n.MEMBER = &pick(c.regions); }, __VA_ARGS__}); \
-         else if constexpr (requires { n.MEMBER = &N(); }) ms.push_back({#MEMBER "=Name", [&] { n.MEMBER = &N(); }, __VA_ARGS__}); \
-         else if constexpr (requires { n.MEMBER = &pick(c.vars); }) ms.push_back({#MEMBER "=Var", [&] { n.MEMBER = &pick(c.vars); }, __VA_ARGS__});
+         // ---- optional links: the first sort of node the member accepts; each assigned twice
+#define LINK2(NAME, MEMBER, SORT, POOLPICK, BASE) { const BASE* a = &(POOLPICK); const BASE* b = &(POOLPICK); \
+            twice(ms, NAME "=" SORT, [&n, a, b](int k) { n.MEMBER = k ? b : a; }, show(*a), show(*b)); }
+#define LINK(MEMBER) \
+         if constexpr (requires { n.MEMBER = &E(); }) LINK2(#MEMBER, MEMBER, "Expr", E(), ipr::Expr) \
+         else if constexpr (requires { n.MEMBER = &pick(c.stmts); }) LINK2(#MEMBER, MEMBER, "Stmt", pick(c.stmts), ipr::Stmt) \
+         else if constexpr (requires { n.MEMBER = &T(); }) LINK2(#MEMBER, MEMBER, "Type", T(), ipr::Type) \
+         else if constexpr (requires { n.MEMBER = &pick(c.regions); }) LINK2(#MEMBER, MEMBER, "Region", pick(c.regions), ipr::Region) \
+         else if constexpr (requires { n.MEMBER = &N(); }) LINK2(#MEMBER, MEMBER, "Name", N(), ipr::Name) \
+         else if constexpr (requires { n.MEMBER = &pick(c.vars); }) LINK2(#MEMBER, MEMBER, "Var", pick(c.vars), ipr::Var)
 #define KEEP std::function<std::string()>{}
-         LINK(op_impl, KEEP) LINK(init, KEEP) LINK(cond, KEEP) LINK(inc, KEEP) LINK(control, KEEP) LINK(var, KEEP) LINK(seq, KEEP)
-         LINK(body, KEEP) LINK(decls, KEEP) LINK(length, KEEP) LINK(lexreg, KEEP) LINK(underlying, KEEP) LINK(id, KEEP)
-         LINK(value_type, KEEP) LINK(decl_constraint, KEEP) LINK(eh, KEEP) LINK(owned_by, KEEP)
+         LINK(op_impl) LINK(init) LINK(cond) LINK(inc) LINK(control) LINK(var) LINK(seq)
+         LINK(body) LINK(decls) LINK(length) LINK(lexreg) LINK(underlying) LINK(id)
+         LINK(value_type) LINK(decl_constraint) LINK(eh) LINK(owned_by)
          // the sub-node a borrowed type is taken from (loops, instantiations, where-expressions): the type is the old one or the
          // type of the new sub-node
          if constexpr (requires { n.stmt = &E(); }) {
-            auto* sub = &E();
-            ms.push_back({"stmt=Expr", [&n, sub] { n.stmt = sub; }, [=] { return typeof_(*sub); }});
+            const ipr::Expr* a = &E(); const ipr::Expr* b = &E();
+            twice(ms, "stmt=Expr", [&n, a, b](int k) { n.stmt = k ? b : a; }, show(*a), show(*b), [=] { return typeof_(*a); }, [=] { return typeof_(*b); });
          }
          else if constexpr (requires { n.stmt = &pick(c.stmts); }) {
-            auto* sub = &pick(c.stmts);
-            ms.push_back({"stmt=Stmt", [&n, sub] { n.stmt = sub; }, [=] { return typeof_(*sub); }});
+            const ipr::Stmt* a = &pick(c.stmts); const ipr::Stmt* b = &pick(c.stmts);
+            twice(ms, "stmt=Stmt", [&n, a, b](int k) { n.stmt = k ? b : a; }, show(*a), show(*b), [=] { return typeof_(*a); }, [=] { return typeof_(*b); });
          }
          if constexpr (requires { n.result = &E(); }) {
-            auto* sub = &E();
-            ms.push_back({"result=Expr", [&n, sub] { n.result = sub; }, [=] { return typeof_(*sub); }});
+            const ipr::Expr* a = &E(); const ipr::Expr* b = &E();
+            twice(ms, "result=Expr", [&n, a, b](int k) { n.result = k ? b : a; }, show(*a), show(*b), [=] { return typeof_(*a); }, [=] { return typeof_(*b); });
          }
          // the type itself, given after construction: from then on it is the type
          if constexpr (requires { n.typing = &T(); }) {
-            auto* t = &T();
-            ms.push_back({"typing=Type", [&n, t] { n.typing = t; }, [&c, t] { return "=" + c.ob.show(*t); }});
+            const ipr::Type* a = &T(); const ipr::Type* b = &T();
+            twice(ms, "typing=Type", [&n, a, b](int k) { n.typing = k ? b : a; }, show(*a), show(*b), [&c, a] { return "=" + c.ob.show(*a); }, [&c, b] { return "=" + c.ob.show(*b); });
          }
          else if constexpr (requires { n.typing = L.make_closure(pick(c.regions)); }) {
             auto* k = L.make_closure(pick(c.regions));
-            ms.push_back({"typing=Closure", [&n, k] { n.typing = k; }, [&c, k] { return "=" + c.ob.show(static_cast<const ipr::Type&>(*k)); }});
+            ms.push_back({"typing=Closure", [&n, k] { n.typing = k; }, [&c, k] { return "=" + c.ob.show(static_cast<const ipr::Type&>(*k)); }, show(static_cast<const ipr::Type&>(*k))});
          }
          if constexpr (requires { n.body().typing = &T(); }) {          // a handler borrows from its body
             auto* t = &T();
-            ms.push_back({"body().typing=Type", [&n, t] { n.body().typing = t; }, [&c, t] { return "=" + c.ob.show(*t); }});
+            ms.push_back({"body().typing=Type", [&n, t] { n.body().typing = t; }, [&c, t] { return "=" + c.ob.show(*t); }, "-"});
          }
          // ---- master declaration data, specifiers, statement data
          if constexpr (requires { n.decl_data.master_data->home = &pick(c.regions); })
-            ms.push_back({"home=Region", [&] { n.decl_data.master_data->home = &pick(c.regions); }, KEEP});
+            LINK2("home", decl_data.master_data->home, "Region", pick(c.regions), ipr::Region)
          if constexpr (requires { n.decl_data.master_data->langlinkage = &pick(c.linkages); })
-            ms.push_back({"langlinkage=Linkage", [&] { n.decl_data.master_data->langlinkage = &pick(c.linkages); }, KEEP});
-         if constexpr (requires { n.specifiers(ipr::Specifiers{0x42}); }) {
-            ms.push_back({"specifiers(0x42)", [&] { n.specifiers(ipr::Specifiers{0x42}); }, KEEP});
-            ms.push_back({"specifiers(0x204)", [&] { n.specifiers(ipr::Specifiers{0x204}); }, KEEP});
+            LINK2("langlinkage", decl_data.master_data->langlinkage, "Linkage", pick(c.linkages), ipr::Linkage)
+         if constexpr (requires { n.specifiers(ipr::Specifiers{0x42}); })
+            twice(ms, "specifiers()", [&n](int k) { n.specifiers(ipr::Specifiers{k ? 0x204u : 0x42u}); }, "#66", "#516");
+         if constexpr (requires { n.specs = ipr::Specifiers{0x30}; }) twice(ms, "specs", [&n](int k) { n.specs = ipr::Specifiers{k ? 0x42u : 0x30u}; }, "#48", "#66");
+         if constexpr (requires { n.lam_spec = Lambda_specifiers::Constexpr; })
+            twice(ms, "lam_spec", [&n](int k) { n.lam_spec = k ? Lambda_specifiers::Mutable : Lambda_specifiers::Constexpr; }, show(Lambda_specifiers::Constexpr), show(Lambda_specifiers::Mutable));
+         if constexpr (requires { n.binding_mode = Binding_mode::Reference; })
+            twice(ms, "binding_mode", [&n](int k) { n.binding_mode = k ? Binding_mode::Move : Binding_mode::Reference; }, show(Binding_mode::Reference), show(Binding_mode::Move));
+         if constexpr (requires { n.src_locus.line = Line_number{77}; }) {
+            ipr::Source_location l0, l1;
+            l0.line = Line_number{77}; l0.column = Column_number{5}; l0.file = File_index{3};
+            l1.line = Line_number{78}; l1.column = Column_number{9}; l1.file = File_index{4};
+            twice(ms, "src_locus", [&n, l0, l1](int k) { n.src_locus = k ? l1 : l0; }, show(l0), show(l1));
          }
-         if constexpr (requires { n.specs = ipr::Specifiers{0x30}; }) ms.push_back({"specs=0x30", [&] { n.specs = ipr::Specifiers{0x30}; }, KEEP});
-         if constexpr (requires { n.lam_spec = Lambda_specifiers::Constexpr; }) ms.push_back({"lam_spec=constexpr", [&] { n.lam_spec = Lambda_specifiers::Constexpr; }, KEEP});
-         if constexpr (requires { n.binding_mode = Binding_mode::Reference; }) ms.push_back({"binding_mode=ref", [&] { n.binding_mode = Binding_mode::Reference; }, KEEP});
-         if constexpr (requires { n.src_locus.line = Line_number{77}; }) ms.push_back({"src_locus", [&] { n.src_locus.line = Line_number{77}; n.src_locus.column = Column_number{5}; }, KEEP});
-         if constexpr (requires { n.attrs.push_back(&pick(c.attributes)); }) ms.push_back({"attrs.push_back", [&] { n.attrs.push_back(&pick(c.attributes)); }, KEEP});
+         if constexpr (requires { n.attrs.push_back(&pick(c.attributes)); }) ms.push_back({"attrs.push_back", [&] { n.attrs.push_back(&pick(c.attributes)); }, KEEP, "-"});
          if constexpr (requires { n.data.template emplace<1>(static_cast<impl::Mapping*>(nullptr)); })
-            ms.push_back({"data=Mapping", [&] { auto* m = L.make_mapping(pick(c.regions), Mapping_level{1}); m->param(N(), T()); n.data.template emplace<1>(m); }, KEEP});
+            ms.push_back({"data=Mapping", [&] { auto* m = L.make_mapping(pick(c.regions), Mapping_level{1}); m->param(N(), T()); n.data.template emplace<1>(m); }, KEEP, "-"});
          if constexpr (requires { n.init = static_cast<impl::Mapping*>(nullptr); } and not requires { n.init = &E(); })
-            ms.push_back({"init=Mapping", [&] { auto* m = L.make_mapping(pick(c.regions), Mapping_level{1}); m->param(N(), T()); n.init = m; }, KEEP});
+            ms.push_back({"init=Mapping", [&] { auto* m = L.make_mapping(pick(c.regions), Mapping_level{1}); m->param(N(), T()); n.init = m; }, KEEP, "-"});
          // ---- containers of the node growing
-         if constexpr (requires { n.add_stmt(E()); }) { ms.push_back({"add_stmt", [&] { n.add_stmt(E()); }, KEEP}); ms.push_back({"add_stmt#2", [&] { n.add_stmt(E()); }, KEEP}); }
+         if constexpr (requires { n.add_stmt(E()); }) { ms.push_back({"add_stmt", [&] { n.add_stmt(E()); }, KEEP, "-"}); ms.push_back({"add_stmt#2", [&] { n.add_stmt(E()); }, KEEP, "-"}); }
          if constexpr (requires { n.new_handler(N(), T()); }) {
-            ms.push_back({"new_handler", [&] { n.new_handler(N(), T()); }, KEEP});
-            ms.push_back({"new_handler#2", [&] { auto* h = n.new_handler(N(), T()); h->body().typing = &T(); h->body().add_stmt(E()); }, KEEP});
+            ms.push_back({"new_handler", [&] { n.new_handler(N(), T()); }, KEEP, "-"});
+            ms.push_back({"new_handler#2", [&] { auto* h = n.new_handler(N(), T()); h->body().typing = &T(); h->body().add_stmt(E()); }, KEEP, "-"});
          }
-         if constexpr (requires { n.add_member(N()); }) { ms.push_back({"add_member", [&] { n.add_member(N()); }, KEEP}); ms.push_back({"add_member#2", [&] { n.add_member(N())->init = &E(); }, KEEP}); }
-         if constexpr (requires { n.param(N(), T()); }) { ms.push_back({"param", [&] { n.param(N(), T()); }, KEEP}); ms.push_back({"param#2", [&] { n.param(N(), T()); }, KEEP}); }
-         else if constexpr (requires { n.inputs.add_member(N(), T()); }) ms.push_back({"inputs.add_member", [&] { n.inputs.add_member(N(), T()); }, KEEP});
-         if constexpr (requires { n.formals.add_member(N(), T()); }) ms.push_back({"formals.add_member", [&] { n.formals.add_member(N(), T()); }, KEEP});
-         if constexpr (requires { n.declare_base(T()); }) ms.push_back({"declare_base", [&] { n.declare_base(T()); }, KEEP});
+         if constexpr (requires { n.add_member(N()); }) { ms.push_back({"add_member", [&] { n.add_member(N()); }, KEEP, "-"}); ms.push_back({"add_member#2", [&] { n.add_member(N())->init = &E(); }, KEEP, "-"}); }
+         if constexpr (requires { n.param(N(), T()); }) { ms.push_back({"param", [&] { n.param(N(), T()); }, KEEP, "-"}); ms.push_back({"param#2", [&] { n.param(N(), T()); }, KEEP, "-"}); }
+         else if constexpr (requires { n.inputs.add_member(N(), T()); }) ms.push_back({"inputs.add_member", [&] { n.inputs.add_member(N(), T()); }, KEEP, "-"});
+         if constexpr (requires { n.formals.add_member(N(), T()); }) ms.push_back({"formals.add_member", [&] { n.formals.add_member(N(), T()); }, KEEP, "-"});
+         if constexpr (requires { n.declare_base(T()); }) ms.push_back({"declare_base", [&] { n.declare_base(T()); }, KEEP, "-"});
          if constexpr (requires { n.declare_field(N(), T()); }) {
-            ms.push_back({"declare_field", [&] { n.declare_field(N(), T()); }, KEEP});
-            ms.push_back({"declare_var", [&] { n.declare_var(N(), T()); }, KEEP});
-            ms.push_back({"declare_type", [&] { n.declare_type(N(), L.class_type()); }, KEEP});
-            ms.push_back({"declare_fun", [&] { n.declare_fun(N(), pick(c.functions)); }, KEEP});
+            ms.push_back({"declare_field", [&] { n.declare_field(N(), T()); }, KEEP, "-"});
+            ms.push_back({"declare_var", [&] { n.declare_var(N(), T()); }, KEEP, "-"});
+            ms.push_back({"declare_type", [&] { n.declare_type(N(), L.class_type()); }, KEEP, "-"});
+            ms.push_back({"declare_fun", [&] { n.declare_fun(N(), pick(c.functions)); }, KEEP, "-"});
          }
-         if constexpr (requires { n.captures.push_back(pick(c.vars), Binding_mode::Copy); }) ms.push_back({"captures.push_back", [&] { n.captures.push_back(pick(c.vars), Binding_mode::Copy); }, KEEP});
+         if constexpr (requires { n.captures.push_back(pick(c.vars), Binding_mode::Copy); }) ms.push_back({"captures.push_back", [&] { n.captures.push_back(pick(c.vars), Binding_mode::Copy); }, KEEP, "-"});
          if constexpr (requires { n.tokens.push_back(pick(c.strings), Source_location{}, TokenValue{1}, TokenCategory{2}); })
-            ms.push_back({"tokens.push_back", [&] { n.tokens.push_back(pick(c.strings), Source_location{}, TokenValue{1}, TokenCategory{2}); }, KEEP});
-         if constexpr (requires { n.ids.push_back(&pick(c.idents)); }) ms.push_back({"ids.push_back", [&] { n.ids.push_back(&pick(c.idents)); }, KEEP});
+            ms.push_back({"tokens.push_back", [&] { n.tokens.push_back(pick(c.strings), Source_location{}, TokenValue{1}, TokenCategory{2}); }, KEEP, "-"});
+         if constexpr (requires { n.ids.push_back(&pick(c.idents)); }) ms.push_back({"ids.push_back", [&] { n.ids.push_back(&pick(c.idents)); }, KEEP, "-"});
          if constexpr (requires { n.requirements.push_back(c.forms->make_simple_requirement(E())); })
-            ms.push_back({"requirements.push_back", [&] { n.requirements.push_back(c.forms->make_simple_requirement(E())); }, KEEP});
+            ms.push_back({"requirements.push_back", [&] { n.requirements.push_back(c.forms->make_simple_requirement(E())); }, KEEP, "-"});
 #undef LINK
+#undef LINK2
 #undef KEEP
          if (ms.empty()) return;
          std::shuffle(ms.begin(), ms.end(), g);
          std::string want = now();
-         std::cout << "M " << r.key << ' ' << r.inst << " 0 built type=" << want << " want=" << want << '\n';
+         std::cout << "M " << r.key << ' ' << r.inst << " 0 built type=" << want << " want=" << want << " val=-\n";
+         std::cout << "N " << r.key << ' ' << r.inst << " 0 " << c.ob.observe(r.result).line() << '\n';
          int step = 0;
          for (auto& m : ms) {
             m.act();
@@ -600,9 +900,11 @@ namespace {
                want = w[0] == '=' ? w.substr(1) : (w == want ? want : want + "|" + w);
             }
             const std::string t = now();
-            std::cout << "M " << r.key << ' ' << r.inst << ' ' << ++step << ' ' << m.name << " type=" << t << " want=" << want << '\n';
+            std::cout << "M " << r.key << ' ' << r.inst << ' ' << ++step << ' ' << m.name << " type=" << t << " want=" << want << " val=" << m.val << '\n';
+            std::cout << "N " << r.key << ' ' << r.inst << ' ' << step << ' ' << c.ob.observe(r.result).line() << '\n';
             if (want.find('|') != std::string::npos) want = t;       // whichever of the two it is, it stays
             ++c.stats["mutations followed by a re-read of the type"];
+            if (m.val != "-") ++c.stats["setter calls followed by a re-read of the node"];
          }
          ++c.stats["nodes mutated after construction"];
       }
@@ -616,21 +918,22 @@ namespace {
    std::vector<Entry> entries;
    void add(std::string key, std::function<void(Run&)> body) { entries.push_back({std::move(key), std::move(body)}); }
 
-   void run_entry(Ctx& c, const Entry& e)
+   // All instances of one row: the base row of an entry (form == nullptr) or one of its operand forms.
+   void run_rows(Ctx& c, const Entry& e, const std::string& key, const std::string& fname, const Form* form, Form_info* info, int need)
    {
       // operand vectors already handed to a function of this name (whatever the overload / form): a unified factory answers such a
       // request with the node it made then, which says nothing about the call under test
       static std::set<std::string> requested;
-      std::string fname = e.key.substr(0, e.key.find('('));
-      if (auto p = fname.rfind("::"); p != std::string::npos) fname = fname.substr(p + 2);
-      int need = 2 * c.rounds;
+      const int need0 = need;
       for (int inst = 0; inst < need; ++inst) {
          int never_requested = 0;                      // stale attempts whose operand vector no call before this instance had used
          std::set<std::string> mine;
+         std::string last_vector;
          for (int attempt = 0; ; ++attempt) {
             const std::size_t before = c.ob.count();
-            Run r{c, e.key, inst, false};
+            Run r{c, key, inst, false};
             r.attempt = attempt;
+            r.form = form; r.fname = fname; r.origin = e.key; r.info = info;
             if (attempt < 12) {
                // dry check: a unified result that existed before this call would not show the objects created with it
                std::ostringstream sink;
@@ -639,23 +942,65 @@ namespace {
                std::cout.rdbuf(old);
                const bool stale = r.result.size() > 1 and r.result[0] == 'n' and std::stoul(r.result.substr(1)) < before;
                const std::string vec = fname + ' ' + Run::join(r.args);
+               // ... and the same vector without its by-value operands: a documented normal form (the natural transfer given explicitly)
+               // makes the factory answer the node it made for the other operands alone
+               std::string nodes_only = fname + " nodes:";
+               for (auto& a : r.args) if (a.size() > 1 and a[0] == 'n' and std::isdigit(static_cast<unsigned char>(a[1]))) nodes_only += ' ' + a;
                mine.insert(vec);
-               if (stale) { if (requested.count(vec) == 0) ++never_requested; continue; }
+               mine.insert(nodes_only);
+               if (stale) { if (requested.count(vec) == 0 and requested.count(nodes_only) == 0) ++never_requested; last_vector = "args=[" + Run::join(r.args) + "] => " + r.result; continue; }
                std::cout << sink.str();
-               if (not r.ephemeral) c.made.push_back({e.key, inst, r.result, r.watermark, r.fresh_args});
+               if (not r.ephemeral) c.made.push_back({key, inst, r.result, r.watermark, r.fresh_args});
             }
             else {
-               std::cout << "# skipped " << e.key << ' ' << inst << " (every operand choice gave a node that existed before; " << never_requested
-                         << " of 12 operand vectors had never been requested)\n";
+               std::cout << "# skipped " << key << ' ' << inst << " (every operand choice gave a node that existed before; " << never_requested
+                         << " of 12 operand vectors had never been requested) last: " << last_vector << '\n';
                break;
             }
-            need = std::max(need, r.need);
-            Run again{c, e.key, inst, true, r.result};
+            if (form == nullptr) need = std::max(need, r.need);
+            else need = std::max(need, std::min(r.need, 2 * need0));      // enumerator domains: run through, but not 170 x every variant
+            Run again{c, key, inst, true, r.result};
             again.attempt = attempt;
+            again.form = form; again.fname = fname; again.origin = e.key; again.reuse = &r.created;
             e.body(again);
             break;
          }
          requested.insert(mine.begin(), mine.end());
+      }
+   }
+
+   void run_entry(Ctx& c, const Entry& e)
+   {
+      std::string fname = e.key.substr(0, e.key.find('('));
+      if (auto p = fname.rfind("::"); p != std::string::npos) fname = fname.substr(p + 2);
+      Form_info info;
+      run_rows(c, e, e.key, fname, nullptr, &info, 2 * c.rounds);
+      if (not info.known) return;
+      for (Mode m : { NESTED, RESOLVED, RESERVED, FILLED }) {
+         if (not form_applies(m, info)) continue;
+         Form f;
+         f.mode = m;
+         const int n = static_cast<int>(info.sorts.size());
+         for (int i = 0; i < n; ++i) {
+            const std::string& s = info.sorts[i];
+            if (m == NESTED and ((s == "Expr" and info.is_expr) or (s == "Type" and info.is_type))) f.slots.push_back(i);
+            if (m == RESOLVED and s == "Expr") f.slots.push_back(i);
+         }
+         f.nvar = std::max<int>(1, static_cast<int>(f.slots.size()) + (f.slots.size() >= 2 ? 1 : 0));
+         if (m == NESTED) {
+            for (auto& x : c.made_by[fname]) f.candidates.push_back(x);
+            for (auto& x : f.candidates) if (std::find(f.origins.begin(), f.origins.end(), x.origin) == f.origins.end()) f.origins.push_back(x.origin);
+            if (f.candidates.empty()) continue;
+            f.nstates = static_cast<int>(std::min<std::size_t>(f.origins.size(), 4));
+         }
+         if (m == RESOLVED or m == FILLED) f.nstates = 3;
+         int need = std::max(2, f.nvar * f.nstates) * c.rounds;
+         if (m == RESERVED) {
+            f.every_word = info.has("String") or info.has("word_view");
+            // (every word twice whatever the number of rounds: the four routes to a literal share one table of (type, spelling) pairs)
+            need = f.every_word ? 2 * static_cast<int>(c.reserved_words.size()) : 8 * c.rounds;
+         }
+         run_rows(c, e, e.key + mode_suffix[m], fname, &f, nullptr, need);
       }
    }
 }
@@ -777,6 +1122,7 @@ void Ctx::build_pools()
    // regions, scopes
    for (int i = 0; i < 6; ++i) {
       impl::Region* r = global->make_subregion();
+      pool_regions.push_back(r);
       pool("Region", regions, static_cast<const ipr::Region&>(*r));
       pool("Scope", scopes, r->bindings());
    }
@@ -784,6 +1130,7 @@ void Ctx::build_pools()
    impl::Region* declreg = global->make_subregion();
    for (int i = 0; i < 4; ++i) {
       auto* v = declreg->declare_var(*idents[i], fresh_type());
+      if (i & 1) v->init = exprs[i];                  // operands with their optional parts set: a variable with an initializer, ...
       pool("Var", vars, static_cast<const ipr::Var&>(*v));
       pool("Decl", decls, static_cast<const ipr::Decl&>(*v));
    }
@@ -793,12 +1140,17 @@ void Ctx::build_pools()
       pool("Template", templates, static_cast<const ipr::Template&>(*declreg->declare_primary_template(*idents[i], *foralls[i])));
    {
       impl::Mapping* m = L.make_mapping(*global, Mapping_level{1});
-      for (int i = 0; i < 4; ++i) pool("Parameter", parms, static_cast<const ipr::Parameter&>(*m->param(*idents[i + 4], fresh_type())));
+      for (int i = 0; i < 8; ++i) {
+         auto* pm = m->param(*idents[(i + 4) % 8], fresh_type());
+         if (i & 1) pm->init = exprs[(i + 4) % 12];             // ... a parameter with a default argument
+         pool("Parameter", parms, static_cast<const ipr::Parameter&>(*pm));
+      }
    }
    // compound expressions used as operands of a precise type
    for (int i = 0; i < 6; ++i) pool("Scope_ref", scope_refs, static_cast<const ipr::Scope_ref&>(*L.make_scope_ref(*exprs[i], *exprs[i + 1], fresh_type())));
    for (int i = 0; i < 4; ++i) {
       auto* xl = L.make_expr_list();
+      pool_lists.push_back(xl);
       for (int j = 0; j <= i; ++j) xl->push_back(exprs[(i + j) % exprs.size()]);
       pool("Expr_list", expr_lists, static_cast<const ipr::Expr_list&>(*xl));
    }
@@ -806,6 +1158,7 @@ void Ctx::build_pools()
    for (int i = 0; i < 4; ++i) pool("Construction", constructions, static_cast<const ipr::Construction&>(*L.make_construction(fresh_type(), *enclosures[i])));
    for (int i = 0; i < 4; ++i) {
       auto* b = L.make_block(*regions[i], fresh_type());
+      pool_blocks.push_back(b);
       pool("Block", blocks, static_cast<const ipr::Block&>(*b));
       pool("Stmt", stmts, static_cast<const ipr::Stmt&>(*b));
    }
@@ -868,15 +1221,64 @@ void Ctx::build_pools()
       }
       for (int i = 0; i < 4; ++i) pool("Fundecl", fundecls, static_cast<const ipr::Fundecl&>(*declreg->declare_fun(*names[(i + 2) % 5], *functions[i])));
       impl::Enum* en = L.make_enum(*global, ipr::Enum::Kind::Legacy);
-      for (int i = 0; i < 4; ++i) pool("Enumerator", enumerators, static_cast<const ipr::Enumerator&>(*en->add_member(*names[i])));
+      for (int i = 0; i < 4; ++i) {
+         auto* em = en->add_member(*names[i]);
+         if (i & 1) em->init = exprs[i + 6];             // ... an enumerator with an initializer
+         pool("Enumerator", enumerators, static_cast<const ipr::Enumerator&>(*em));
+      }
       impl::Class* kl = L.make_class(*global);
       for (int i = 0; i < 4; ++i) pool("Base_type", bases, static_cast<const ipr::Base_type&>(*kl->declare_base(fresh_type())));
    }
    for (int i = 0; i < 4; ++i) pool("Substitution", substitutions, static_cast<const ipr::Substitution&>(*L.make_elementary_substitution(*parms[i], *exprs[i])));
+   // ---- what the operand forms draw from (see `Mode`)
+   for (auto* d : decls) resolvable.push_back(d);
+   for (auto* d : redecls) resolvable.push_back(d);
+   for (auto* d : fundecls) resolvable.push_back(d);
+   for (auto* d : parms) resolvable.push_back(d);
+   for (auto* d : enumerators) resolvable.push_back(d);
+   for (auto* d : templates) resolvable.push_back(d);
+   for (auto* d : retemplates) resolvable.push_back(d);
+   for (auto* d : bases) resolvable.push_back(d);
+   for (int i = 0; i < 40; ++i) {
+      std::u8string digits;
+      for (char ch : std::to_string(1000 + i)) digits += static_cast<char8_t>(ch);
+      words.push_back(digits);
+      pool("Id_type", id_types, static_cast<const ipr::Type&>(L.get_array(*base[i % 10], *L.make_literal(L.int_type(), words.back()))));
+   }
+   // (the Strings and Identifiers of the reserved spellings are process-wide constants: they are asked for -- and so first named --
+   //  by the call that uses them, not here, so that the base rows of the unified name factories still meet names nobody has seen)
+   {
+      auto alias_type = [&](const char8_t* name, const ipr::Type& t) -> const ipr::Type& {
+         return L.get_as_type(*L.make_id_expr(*global->declare_alias(L.get_identifier(name), t)));
+      };
+      const ipr::Type& null_t = L.nullptr_value().type();
+      std::vector<const ipr::Type*> odd;
+      const ipr::Type* plain[] = { &L.int_type(), &L.bool_type(), &L.char_type(), &L.long_type(), &L.double_type(), &null_t, &L.void_type() };
+      for (auto* t : plain) odd.push_back(t);
+      for (auto* t : plain) odd.push_back(&L.get_pointer(*t));
+      for (int i = 0; i < 6; ++i) for (std::uintptr_t cv = 1; cv <= 3; ++cv) odd.push_back(&L.get_qualified(Qualifiers{cv}, *plain[i]));
+      for (int i = 0; i < 6; ++i) odd.push_back(&L.get_reference(*plain[i]));
+      for (int i = 0; i < 6; ++i) odd.push_back(&L.get_pointer(L.get_qualified(Qualifiers{1}, *plain[i])));
+      odd.push_back(&alias_type(u8"BOOL", L.int_type()));
+      odd.push_back(&alias_type(u8"nullptr_t", null_t));
+      odd.push_back(&alias_type(u8"boolean", L.bool_type()));
+      for (auto* t : odd) pool("Odd_type", odd_types, *t);
+   }
    // observe every pool element once (operands of `via` hops)
    const std::size_t n = ob.count();
    for (std::size_t i = 0; i < n; ++i) std::cout << "O " << ob.observe("n" + std::to_string(i)).line() << '\n';
    std::cout << "POOLS-END " << ob.count() << '\n';
+}
+
+// The client goes on using the containers it handed over as operands: before the late re-read every pool expression list, region
+// (hence scope) and block gains a member.  A node built over such a container still reports that very container.
+void Ctx::grow_pools()
+{
+   std::size_t k = 0;
+   for (auto* xl : pool_lists) xl->push_back(exprs[k++ % exprs.size()]);
+   for (auto* r : pool_regions) { r->declare_var(*names[k % names.size()], *types[(k + 1) % types.size()]); ++k; }
+   for (auto* b : pool_blocks) b->add_stmt(*exprs[k++ % exprs.size()]);
+   stats["pool containers grown before the late re-read"] += static_cast<long>(pool_lists.size() + pool_regions.size() + pool_blocks.size());
 }
 
 // ------------------------------------------------------------------------------------------------ entries
@@ -893,6 +1295,7 @@ namespace {
       r.scrub();
       auto it = ids.emplace(identity, static_cast<int>(ids.size())).first;
       r.result = "v" + std::to_string(it->second);
+      r.note(0);
       if (r.repeat) {
          std::cout << "U " << r.key << ' ' << r.inst << ' ' << (r.result == r.first_result ? "same" : "fresh") << '\n';
          return;
@@ -902,6 +1305,10 @@ namespace {
       std::cout << "O " << r.result << ' ' << kind;
       for (auto& f : fields) std::cout << ' ' << f.first << '=' << f.second;
       std::cout << '\n';
+      std::set<std::string> none;
+      for (auto& a : r.fresh_args) print_closure(r.c, a, r.watermark, 0, none);
+      for (auto& f : r.after_read) f();
+      r.after_read.clear();
    }
    void done_transfer(Run& r, const ipr::Transfer& t)
    {
@@ -926,6 +1333,10 @@ namespace {
       auto& ob = r.c.ob;
       done_value(r, &l, "Logogram", {{"operand", ob.show(l.operand())}, {"what", ob.show(l.what())},
                  {"what.characters", ob.show(l.what().characters())}});
+   }
+   void done_substitution(Run& r, const ipr::Substitution& s, std::vector<std::pair<std::string, std::string>> fields)
+   {
+      done_value(r, &s, "Substitution", std::move(fields));
    }
    const ipr::Transfer& natural(Run& r)
    {
@@ -1073,6 +1484,22 @@ static void register_expr_entries()
    ENTRY("expr_factory::make_requires(Region,Mapping_level)", auto& p = r.R(); auto& l = r.LVL(); r.done(*L.make_requires(p, l));)
    ENTRY("expr_factory::make_elementary_substitution(Parameter,Expr)", auto& p = r.PARM(); auto& e = r.E(); r.done(*L.make_elementary_substitution(p, e));)
    ENTRY("expr_factory::make_general_substitution()", r.done(*L.make_general_substitution());)
+   // a general substitution is filled through its builder after creation: it answers, for every parameter, the value it was given
+   // LAST for that parameter (a parameter never bound maps to itself) -- read through Substitution::operator[]
+   ENTRY("General_substitution::subst(Parameter,Expr)", auto* s = L.make_general_substitution(); auto& p = r.PARM(); auto& e = r.E(); auto& q = r.PARM();
+         s->subst(p, e); const ipr::Substitution& v = *s;
+         done_substitution(r, v, {{"image", r.c.ob.show(v[p])}, {"unbound", r.c.ob.show(v[q])}});)
+   ENTRY("General_substitution::subst(Parameter,Expr)#rebound", auto* s = L.make_general_substitution(); auto& p1 = r.PARM(); auto& e1 = r.E();
+         auto& p2 = r.PARM(); auto& e2 = r.E(); auto& e3 = r.E(); auto& q = r.PARM();
+         s->subst(p1, e1).subst(p2, e2); s->subst(p1, e3); const ipr::Substitution& v = *s;
+         done_substitution(r, v, {{"image", r.c.ob.show(v[p1])}, {"other", r.c.ob.show(v[p2])}, {"unbound", r.c.ob.show(v[q])}});)
+   ENTRY("General_substitution::subst(Parameter,Expr)#rebound-after-read", auto* s = L.make_general_substitution(); auto& p = r.PARM(); auto& e1 = r.E(); auto& e2 = r.E();
+         const ipr::Substitution& v = *s; s->subst(p, e1); const std::string first = r.c.ob.show(v[p]); s->subst(p, e2);
+         done_substitution(r, v, {{"first_read", first}, {"image", r.c.ob.show(v[p])}});)
+   // ... also when it is read through the instantiation it was given to BEFORE the bindings were made
+   ENTRY("General_substitution::subst(Parameter,Expr)#through-instantiation", auto* s = L.make_general_substitution(); auto& pat = r.E(); auto& p = r.PARM();
+         auto& e1 = r.E(); auto& e2 = r.E(); const ipr::Instantiation& inst = *L.make_instantiation(pat, *s); s->subst(p, e1); s->subst(p, e2);
+         done_substitution(r, inst.substitution(), {{"pattern", r.c.ob.show(inst.pattern())}, {"image", r.c.ob.show(inst.substitution()[p])}});)
    ENTRY("expr_factory::make_asm_expr(String)", auto& s = r.S(); r.done(*L.make_asm_expr(s));)
    ENTRY("expr_factory::make_static_assert_expr(Expr,Optional<String>)", auto& e = r.E(); auto& s = r.S(); r.done(*L.make_static_assert_expr(e, s));)
    ENTRY("expr_factory::make_static_assert_expr(Expr,Optional<String>)/1", auto& e = r.E(); r.done(*L.make_static_assert_expr(e));)
@@ -1509,6 +1936,27 @@ int main(int argc, char** argv)
    Ctx c;
    c.seed = argc > 1 ? std::strtoull(argv[1], nullptr, 10) : 1;
    c.rounds = argc > 2 ? std::max(1, std::atoi(argv[2])) : 1;
+   // the reserved spellings: the ones this probe knows, and any further one the caller found in the source of the tree under test
+   // (argv[3]: comma-separated, in hex)
+   for (auto w : { u8"...", u8"=0", u8"C", u8"C++", u8"auto", u8"bool", u8"char", u8"char16_t", u8"char32_t", u8"char8_t", u8"class", u8"const", u8"consteval",
+                   u8"constexpr", u8"constinit", u8"default", u8"delete", u8"double", u8"enum", u8"explicit", u8"export", u8"extern", u8"false", u8"float",
+                   u8"friend", u8"inline", u8"int", u8"long", u8"long double", u8"long long", u8"mutable", u8"namespace", u8"nullptr", u8"private",
+                   u8"protected", u8"public", u8"register", u8"restrict", u8"short", u8"signed char", u8"static", u8"this", u8"thread_local", u8"true",
+                   u8"typedef", u8"typename", u8"union", u8"unsigned char", u8"unsigned int", u8"unsigned long", u8"unsigned long long", u8"unsigned short",
+                   u8"virtual", u8"void", u8"volatile", u8"wchar_t", u8"decltype(auto)" })
+      c.reserved_words.emplace_back(w);
+   if (argc > 3) {
+      std::u8string w;
+      auto flush = [&] { if (not w.empty() and std::find(c.reserved_words.begin(), c.reserved_words.end(), w) == c.reserved_words.end()) c.reserved_words.push_back(w); w.clear(); };
+      for (const char* p = argv[3]; *p != 0; ) {
+         if (*p == ',') { flush(); ++p; continue; }
+         if (p[1] == 0) break;
+         auto hexval = [](char ch) { return ch >= 'a' ? ch - 'a' + 10 : ch >= 'A' ? ch - 'A' + 10 : ch - '0'; };
+         w += static_cast<char8_t>(hexval(p[0]) * 16 + hexval(p[1]));
+         p += 2;
+      }
+      flush();
+   }
    register_expr_entries();
    register_type_entries();
    register_container_entries();
@@ -1522,14 +1970,27 @@ int main(int argc, char** argv)
       if (op == "list") { for (auto& e : entries) std::cout << "E " << e.key << '\n'; }
       else if (op == "all") { for (auto& e : entries) run_entry(c, e); }
       else if (op == "call") {
+         // one entry with all its operand forms (the key of a form names its entry); the entries of the same function registered
+         // before it run first: their results are what `#nested` draws from
          std::string key;
          is >> key;
+         for (auto suffix : mode_suffix) {
+            const std::string sfx = suffix;
+            if (not sfx.empty() and key.size() > sfx.size() and key.compare(key.size() - sfx.size(), sfx.size(), sfx) == 0) key.resize(key.size() - sfx.size());
+         }
+         auto fname_of = [](const std::string& k) { std::string f = k.substr(0, k.find('(')); if (auto p = f.rfind("::"); p != std::string::npos) f = f.substr(p + 2); return f; };
          bool found = false;
-         for (auto& e : entries) if (e.key == key) { run_entry(c, e); found = true; }
+         for (auto& e : entries) if (e.key == key) found = true;
          if (not found) std::cout << "X unknown-entry " << key << '\n';
+         else for (auto& e : entries) {
+            if (e.key == key) { run_entry(c, e); break; }
+            if (fname_of(e.key) == fname_of(key)) run_entry(c, e);
+         }
       }
       else if (op == "recheck") {
-         // late re-observation: every node returned by a factory call is read again, after everything else was built
+         // late re-observation: every node returned by a factory call is read again, after everything else was built -- and after
+         // the client has gone on filling the containers it had handed over
+         c.grow_pools();
          for (auto& m : c.made) {
             if (m.result.size() < 2 or m.result[0] != 'n') continue;      // by-value results have no node to re-read
             std::cout << "L " << m.key << ' ' << m.inst << ' ' << m.result << '\n';
